@@ -31,6 +31,7 @@ Timing clause: measured (CPU time per call over a x100 length range), not decide
 see the evidence notes.
 """
 from __future__ import annotations
+import gc
 import glob
 import json
 import multiprocessing
@@ -75,7 +76,9 @@ def split_prints(r):
     for p in r.prints:
         if isinstance(p, dict) and p.get("hdr") == "ParseLoop":
             hdr = p
-        elif isinstance(p, (list, dict)):
+        elif isinstance(p, list):
+            out.append(" ".join(p))        # compact (millions of soups are kept for the forked workers)
+        elif isinstance(p, dict):
             out.append(p)
     return hdr, out
 
@@ -217,7 +220,7 @@ def run(tier):
     # after a root opener: every class-level root; the concrete block type rotates over all 19 (+4 kv)
     jobs.append(("soup_blocks", ["EmitSoup"], dict(c=dict(MaxLen=L, Roots={"OPN", "SYM"}))))
     jobs.append(("soup_blocks2", ["EmitSoup"], dict(c=dict(MaxLen=L, Roots={"STY", "GRD"}))))
-    jobs.append(("soup_other", ["EmitSoup"], dict(c=dict(MaxLen=3, Roots={"SET", "KVO"}))))
+    jobs.append(("soup_other", ["EmitSoup"], dict(c=dict(MaxLen=2 if quick else 3, Roots={"SET", "KVO"}))))
     if not quick:
         jobs.append(("soup_core5", ["EmitSoup"], dict(c=dict(MaxLen=5, Alphabet=set(CORE)))))
     jobs.append(("min", ["EmitMin", "Contract", "MinimalAccepted"], dict(c=dict(Mode="min"))))
@@ -292,6 +295,8 @@ def run(tier):
 
     # ------------------------------------------------------------------ pools (forked now: workers inherit DATA)
     t_fork = time.time()
+    gc.collect()
+    gc.freeze()
     pool = ctx.Pool(13, initializer=pl.worker_init)
     work = []
     total_soups = sum(n for t, n in sizes.items() if t.startswith("soup_"))
